@@ -187,24 +187,28 @@ def antisense_world2(order):
     return w
 
 
-def novel_world():
-    """three intergenic novel loci: '+' sites with polyA reads, '-' sites with polyT reads, non-canonical sites with polyA,
-       plus contradicting evidence ('+' sites with polyT head)"""
+def novel_world(swap=False):
+    """intergenic novel loci: '+' sites with polyA reads, '-' sites with polyT reads, non-canonical sites with polyA / polyT,
+       contradicting evidence ('+' sites with polyT head); the second chromosome carries loci at the SAME coordinates with the
+       opposite site kind (per-process memos keyed by coordinates only would leak between chromosomes); swap = which
+       chromosome is longer, i.e. processed first"""
     from vlib import worlds as W
-    w = W.base_world(2, 16000)
-    w["genes"].append(W.locus_gene("G1", "chr2", "+", 1000, {"T1": [0, 1, 2]}))
     from vlib import syn
+    w = {"chroms": {"chr1": 17000 if not swap else 16000, "chr2": 16000 if not swap else 17000}, "genes": [], "reads": [], "sites": []}
+    w["genes"].append(W.locus_gene("G1", "chr2", "+", 13000, {"T1": [0, 1, 2]}))
     syn.plant_for_transcripts(w)
     reads = []
-    loci = [("plusA", 1000, "+", "+"), ("minusT", 4000, "-", "-"), ("ncA", 7000, "nc", "+"), ("ncT", 10000, "nc", "-"),
-            ("plusT", 13000, "+", "-")]
-    for name, base, kind, tail in loci:
+    loci = [("plusA", "chr1", 1000, "+", "+"), ("minusT", "chr1", 4000, "-", "-"), ("ncA", "chr1", 7000, "nc", "+"),
+            ("ncT", "chr1", 10000, "nc", "-"), ("plusT", "chr1", 13000, "+", "-"),
+            ("minusT2", "chr2", 1000, "-", "-"), ("plusA2", "chr2", 4000, "+", "+"), ("ncT2", "chr2", 7000, "nc", "-"),
+            ("ncA2", "chr2", 10000, "nc", "+")]
+    for name, chrom, base, kind, tail in loci:
         blocks = W.exons(base, [0, 1, 2])
-        W.add_sites_for_blocks(w, "chr1", blocks, kind)
+        W.add_sites_for_blocks(w, chrom, blocks, kind)
         for i in range(6):
-            reads.append(W.read_of("%s_%d" % (name, i), "chr1", blocks, strand=tail))
+            reads.append(W.read_of("%s_%d" % (name, i), chrom, blocks, strand=tail))
     for i in range(3):
-        reads.append(W.read_of("k_%d" % i, "chr2", W.exons(1000, [0, 1, 2])))
+        reads.append(W.read_of("k_%d" % i, "chr2", W.exons(13000, [0, 1, 2])))
     w["reads"] = reads
     return w, loci
 
@@ -212,7 +216,7 @@ def novel_world():
 def pipeline_case(args):
     kind, param, scratch = args
     from vlib import syn, run
-    d = os.path.join(scratch, "c18_%s_%s" % (kind, "".join(map(str, param)) if not isinstance(param, str) else param))
+    d = os.path.join(scratch, "c18_%s_%s" % (kind, "".join(map(str, param)) if not isinstance(param, str) else param.replace("/", "_")))
     shutil.rmtree(d, ignore_errors=True)
     errs = []
     loci = None
@@ -220,8 +224,8 @@ def pipeline_case(args):
     if kind == "anti":
         w = antisense_world2(param)
     else:
-        w, loci = novel_world()
-        extra += ["--report_canonical", param, "--model_construction_strategy", "all"]
+        w, loci = novel_world(swap=param.endswith("/swap"))
+        extra += ["--report_canonical", param.split("/")[0], "--model_construction_strategy", "all"]
     paths = syn.materialise(w, d)
     seqs = syn.genome_sequences(w)
     out = os.path.join(d, "out")
@@ -272,8 +276,8 @@ def pipeline_case(args):
                              (fn, tid, t["strand"], introns, canon, exp)))
             # strand of novel spliced transcripts vs evidence
             if loci and introns and not tid.startswith("T"):
-                for name, base, kind_, tail in loci:
-                    if t["chr"] == "chr1" and ex[0][0] >= base and ex[-1][1] <= base + 3000:
+                for name, chrom_, base, kind_, tail in loci:
+                    if t["chr"] == chrom_ and ex[0][0] >= base and ex[-1][1] <= base + 3000:
                         site_strand = {"+": "+", "-": "-", "nc": "."}[kind_]
                         if site_strand != ".":
                             if t["strand"] != site_strand:
@@ -283,6 +287,38 @@ def pipeline_case(args):
                             if t["strand"] in "+-" and t["strand"] != tail:
                                 errs.append(("novel-strand-vs-polya", "%s locus %s: strand %s but only evidence (polyA/T) implies %s" %
                                              (tid, name, t["strand"], tail)))
+    # differential oracle (history independence): strands / Canonical flags of one chromosome must not depend on what was
+    # processed on the other chromosome before -> re-run with the reads of a single chromosome and compare that chromosome
+    if kind == "novel":
+        def summary(outdir, chrom):
+            ms = set()
+            p_ = os.path.join(outdir, "OUT", "OUT.transcript_models.gtf")
+            for tid, t in run.gtf_transcripts(run.parse_gtf(p_)).items():
+                if t["chr"] == chrom:
+                    ms.add((tuple(sorted(t["exons"])), t["strand"], t["attrs"].get("Canonical")))
+            rs = set()
+            for r in run.parse_assignments(run.find(outdir, "OUT", ".read_assignments.tsv")):
+                if r["chr"] == chrom:
+                    rs.add((r["read_id"], r["strand"], r["info"].get("Canonical")))
+            return ms, rs
+        for chrom in ("chr1", "chr2"):
+            w1 = dict(w, reads=[r for r in w["reads"] if r.get("chr") == chrom])
+            d1 = os.path.join(d, "only_" + chrom)
+            p1 = syn.materialise(w1, d1)
+            o1 = os.path.join(d1, "out")
+            rc1 = run.run_isoquant(run.base_argv(p1, o1, extra=extra), p1["home"], os.path.join(d1, "o.txt"))
+            if rc1 != 0:
+                errs.append(("run-failed", "single-chromosome run exit %d" % rc1))
+                continue
+            mj, rj = summary(out, chrom)
+            ms_, rs_ = summary(o1, chrom)
+            nchecked += len(ms_) + len(rs_)
+            if mj != ms_:
+                errs.append(("history-dependent-models", "%s: models (exons, strand, Canonical) differ when the other chromosome is "
+                             "processed in the same run: only-joint %s only-alone %s" % (chrom, sorted(mj - ms_)[:2], sorted(ms_ - mj)[:2])))
+            if rj != rs_:
+                errs.append(("history-dependent-reads", "%s: read strand/Canonical differ when the other chromosome is processed "
+                             "in the same run: %s vs %s" % (chrom, sorted(rj - rs_)[:2], sorted(rs_ - rj)[:2])))
     shutil.rmtree(d, ignore_errors=True)
     return kind, param, nchecked, errs
 
@@ -296,7 +332,7 @@ def run(ctx):
     ctx.note("L1 query-history search depth %d: %d states, %d transitions, %d model pairs" % (depth, states, transitions, nmodel))
     n = 3 if quick else 4
     orders = sorted(set(itertools.product("lr", repeat=n)) - {("l",) * n, ("r",) * n})
-    jobs = [("anti", o, ctx.scratch) for o in orders] + [("novel", lvl, ctx.scratch) for lvl in ("auto", "only_canonical", "only_stranded", "all")]
+    jobs = [("anti", o, ctx.scratch) for o in orders] + [("novel", lvl + sw, ctx.scratch) for lvl in ("auto", "only_canonical", "only_stranded", "all") for sw in ("", "/swap")]
     nchecked = 0
     for kind, param, nc, errs in core.pmap(pipeline_case, jobs):
         nchecked += nc
